@@ -316,7 +316,7 @@ func arByTool(r *core.Rand) ([]byte, []string) {
 	if len(names) == 0 {
 		return nil, nil
 	}
-	cmd := exec.Command("ar", append([]string{"rcD", "out.a"}, names...)...)
+	cmd := exec.Command("ar", append([]string{"rcDS", "out.a"}, names...)...)
 	cmd.Dir = dir
 	if cmd.Run() != nil {
 		return nil, nil
